@@ -37,11 +37,15 @@ async fn run_frame(script: Script, chunk_seed: u64) -> FrameObs {
         }
     });
     let id = h.id();
-    let (outcome, site) = match tokio::time::timeout(WATCHDOG, h).await {
-        Ok(Ok(o)) => (o, String::new()),
-        Ok(Err(e)) if e.is_panic() => ("panic".to_string(), take_panic(id)),
-        Ok(Err(_)) => ("cancelled".to_string(), String::new()),
-        Err(_) => ("hang".to_string(), String::new()),
+    let ab = h.abort_handle();
+    let (outcome, site) = tokio::select! {
+        r = tokio::time::timeout(WATCHDOG, h) => match r {
+            Ok(Ok(o)) => (o, String::new()),
+            Ok(Err(e)) if e.is_panic() => ("panic".to_string(), take_panic(id)),
+            Ok(Err(_)) => ("cancelled".to_string(), String::new()),
+            Err(_) => ("hang".to_string(), String::new()),
+        },
+        _ = shared.spinning.notified() => { ab.abort(); ("hang".to_string(), "keeps reading after end of input".to_string()) }
     };
     let rest = total - shared.consumed.load(SeqCst);
     FrameObs { line: format!("{} rest={}", outcome, rest), outcome, site, polls: shared.polls.load(SeqCst) }
@@ -49,7 +53,7 @@ async fn run_frame(script: Script, chunk_seed: u64) -> FrameObs {
 
 // ---------------------------------------------------------------- session
 
-struct SessObs { line: String, end: &'static str, site: String, polls: usize }
+struct SessObs { line: String, end: &'static str, site: String, polls: usize, msgs: u64 }
 
 async fn run_session(script: Script, chunk_seed: u64) -> SessObs {
     let total = script_len(&script);
@@ -71,24 +75,37 @@ async fn run_session(script: Script, chunk_seed: u64) -> SessObs {
     let term = {
         let agent = sess.agent.clone();
         let sh = shared.clone();
-        tokio::spawn(async move { sh.want_term.notified().await; agent.terminate().await; })
+        // The unit terminates while the connection is silent. Give the freshly cloned gates time to
+        // attach to the unit's gate first: a clone that is not yet attached when the unit terminates
+        // can miss the termination (a scheduling race in comms.rs observed at ~1/1000 when the gate
+        // is terminated within microseconds of the session start; see notes/C06.md) — outside the
+        // modelled behaviour, so the engine does not provoke it (VERIF_C06_RACE=1 does).
+        let race = std::env::var("VERIF_C06_RACE").is_ok();
+        tokio::spawn(async move { sh.want_term.notified().await; if !race { tokio::time::sleep(Duration::from_millis(3)).await; } agent.terminate().await; })
     };
     let s2 = sess.clone();
     let h = tokio::spawn(async move { s2.read_from_router(reader).await });
     let id = h.id();
-    let (end, site) = match tokio::time::timeout(WATCHDOG, h).await {
-        Ok(Ok(())) => ("done", String::new()),
-        Ok(Err(e)) if e.is_panic() => ("panic", take_panic(id)),
-        Ok(Err(_)) => ("cancelled", String::new()),
-        Err(_) => ("hang", String::new()),
+    let ab = h.abort_handle();
+    let (end, site) = tokio::select! {
+        r = tokio::time::timeout(WATCHDOG, h) => match r {
+            Ok(Ok(())) => ("done", String::new()),
+            Ok(Err(e)) if e.is_panic() => ("panic", take_panic(id)),
+            Ok(Err(_)) => ("cancelled", String::new()),
+            Err(_) => ("hang", String::new()),
+        },
+        _ = shared.spinning.notified() => { ab.abort(); ("hang", "keeps reading after end of input".to_string()) }
     };
+    if end == "hang" && std::env::var("VERIF_C06_STRESS").is_ok() {
+        eprintln!("hang diag: root_closed={} unit_finished={} term_finished={} updates={} phase={:?}", sess.agent.is_terminated(), unit.is_finished(), term.is_finished(), sess.updates().len(), sess.phase());
+    }
     term.abort();
     if end == "panic" { on_event(); } // nothing removed the router's counters: read them now
     let (ioerrs, msgs) = snap.lock().unwrap().unwrap_or((0, 0));
     let rest = total - shared.consumed.load(SeqCst);
     sess.agent.terminate().await;
     let _ = tokio::time::timeout(Duration::from_secs(2), unit).await;
-    SessObs { line: format!("ioerrs={} msgs={} rest={} end={}", ioerrs, msgs, rest, end), end, site, polls: shared.polls.load(SeqCst) }
+    SessObs { line: format!("ioerrs={} msgs={} rest={} end={}", ioerrs, msgs, rest, end), end, site, polls: shared.polls.load(SeqCst), msgs }
 }
 
 // ------------------------------------------------------------- generators
@@ -231,11 +248,38 @@ fn oracle(outcome_end: &str, site: &str, short_len: bool, polls: usize, total: u
                 format!("fail {} {}", sanitize(&panic_signature(site)), sanitize(site))
             }
         }
+        "hang" if !site.is_empty() => format!("fail hang:busy-loop {}", sanitize(site)),
         "hang" => "fail hang the receiver did not finish a finite input within the watchdog".into(),
         "cancelled" => "fail cancelled task was cancelled".into(),
         _ if polls > 6 * total + 200 => format!("fail busy-loop {} reader polls for {} scripted items", polls, total),
         _ => "ok".into(),
     }
+}
+
+fn base_line(line: &str) -> String { line.split('|').take(3).collect::<Vec<_>>().join("|") }
+
+fn record_frame(rec: &mut Recorder, line: &str, script: &Script, o: FrameObs, fatal: &dyn Fn(ErrorKind) -> bool) {
+    let (_, _, short) = valid_tokens(script, fatal);
+    let flat = flatten(script);
+    let nontrivial = flat.len() >= 5 && flat[..5].iter().all(|f| matches!(f, Flat::B(_)));
+    rec.bump(&format!("frame.outcome.{}", o.outcome.split(' ').take(if o.outcome.starts_with("io") { 2 } else { 1 }).collect::<Vec<_>>().join(".")));
+    let orc = oracle(&o.outcome, &o.site, short, o.polls, flat.len());
+    rec.case(base_line(line), o.line, orc, nontrivial);
+}
+
+fn record_sess(rec: &mut Recorder, line: &str, script: &Script, o: SessObs, fatal: &dyn Fn(ErrorKind) -> bool) {
+    let (toks, nframes, short) = valid_tokens(script, fatal);
+    let nfaults = script.iter().filter(|i| matches!(i, Item::Fault(k) if !fatal(*k))).count();
+    rec.bump(&format!("sess.end.{}", o.end));
+    let orc = oracle(o.end, &o.site, short, o.polls, script_len(script));
+    // a panic inside process_msg (state machine / routecore accessors): the handler is a parameter of
+    // the model, so the model is told on which accepted message the real handler crashed
+    let mut line = base_line(line);
+    if o.end == "panic" && panic_file(&o.site) != "bmp_tcp_in/io.rs" && !toks.contains('p') && o.msgs > 0 {
+        line.push_str(&format!("|crash={}", o.msgs - 1));
+        rec.bump("sess.handler-crash");
+    }
+    rec.case(line, o.line, orc, nframes + nfaults >= 1);
 }
 
 fn main() {
@@ -256,26 +300,32 @@ fn main() {
             "frame" => {
                 let script = parse_script(parts[1]);
                 let o = rt.block_on(run_frame(script.clone(), seed));
-                let (_, _, short) = valid_tokens(&script, &fatal);
-                let flat = flatten(&script);
-                let nontrivial = flat.len() >= 5 && flat[..5].iter().all(|f| matches!(f, Flat::B(_)));
-                rec.bump(&format!("frame.outcome.{}", o.outcome.split(' ').take(if o.outcome.starts_with("io") { 2 } else { 1 }).collect::<Vec<_>>().join(".")));
-                let orc = oracle(&o.outcome, &o.site, short, o.polls, flat.len());
-                rec.case(line.to_string(), o.line, orc, nontrivial);
+                record_frame(rec, line, &script, o, &fatal);
             }
             _ => {
                 let script = parse_script(parts[1]);
                 let o = rt.block_on(run_session(script.clone(), seed));
-                let (_, nframes, short) = valid_tokens(&script, &fatal);
-                let nfaults = script.iter().filter(|i| matches!(i, Item::Fault(k) if !fatal(*k))).count();
-                rec.bump(&format!("sess.end.{}", o.end));
-                let orc = oracle(o.end, &o.site, short, o.polls, script_len(&script));
-                rec.case(line.to_string(), o.line, orc, nframes + nfaults >= 1);
+                record_sess(rec, line, &script, o, &fatal);
             }
         }
     };
 
     if let Some(path) = &args.replay {
+        // VERIF_C06_STRESS=n: run every replayed sess case n times concurrently (race hunting)
+        if let Some(n) = std::env::var("VERIF_C06_STRESS").ok().and_then(|s| s.parse::<usize>().ok()) {
+            for line in verif_harness::replay_cases(path) {
+                let parts: Vec<&str> = line.split('|').collect();
+                if parts[0] != "sess" { continue; }
+                let script = parse_script(parts[1]);
+                let ends: Vec<&'static str> = rt.block_on(async {
+                    let hs: Vec<_> = (0..n).map(|i| { let s = script.clone(); tokio::spawn(async move { let o = run_session(s, i as u64).await; if o.end != "done" { eprintln!("stress seed {} -> {} polls={} site={}", i, o.line, o.polls, o.site); } o.end }) }).collect();
+                    let mut v = vec![]; for h in hs { v.push(h.await.unwrap()); } v
+                });
+                let mut c = std::collections::BTreeMap::new();
+                for e in ends { *c.entry(e).or_insert(0) += 1; }
+                eprintln!("stress {:?}", c);
+            }
+        }
         for line in verif_harness::replay_cases(path) { run_case(&mut rec, &line, args.seed); }
         rec.finish(&args, t0.elapsed().as_secs_f64());
         return;
@@ -339,6 +389,21 @@ fn main() {
         }
     }
 
+    // a Peer Up whose received OPEN has an optional parameter (length 2) shorter than the capability in it:
+    // the framing parser accepts it, the state machine's `capabilities()` walk unwraps a ShortInput
+    {
+        let mut m = peer_up(0);
+        let mut hit = false;
+        for i in 0..m.len().saturating_sub(4) {
+            if m[i..i + 4] == [0x02, 0x04, 0x40, 0x02] { m[i + 1] = 0x02; hit = true; }
+        }
+        if hit {
+            let s = vec![Item::Data(initiation()), Item::Data(m)];
+            let (v, _, _) = valid_tokens(&s, &fatal);
+            run_case(&mut rec, &format!("sess|{}|{}", show_script(&s), v), 1);
+        }
+    }
+
     // 3. generated
     let mut g = Rng::new(args.seed);
     let (mut nframe, mut nsess) = if args.thorough { (400000, 200000) } else { (20000, 12000) };
@@ -359,7 +424,9 @@ fn main() {
         lines.push((format!("sess|{}|{}", show_script(&s), v), g.next()));
     }
     enum Obs { F(FrameObs), S(SessObs) }
+    let mut hangs = 0usize;
     for chunk in lines.chunks(64) {
+        if hangs >= 8 { rec.bump("stopped-early-after-8-hangs"); break; }
         let obs: Vec<Obs> = rt.block_on(async {
             let hs: Vec<_> = chunk.iter().map(|(line, seed)| {
                 let parts: Vec<&str> = line.split('|').collect();
@@ -375,21 +442,9 @@ fn main() {
         for ((line, _), o) in chunk.iter().zip(obs) {
             let parts: Vec<&str> = line.split('|').collect();
             let script = parse_script(parts[1]);
-            let (_, nframes, short) = valid_tokens(&script, &fatal);
             match o {
-                Obs::F(o) => {
-                    let flat = flatten(&script);
-                    let nontrivial = flat.len() >= 5 && flat[..5].iter().all(|f| matches!(f, Flat::B(_)));
-                    rec.bump(&format!("frame.outcome.{}", o.outcome.split(' ').take(if o.outcome.starts_with("io") { 2 } else { 1 }).collect::<Vec<_>>().join(".")));
-                    let orc = oracle(&o.outcome, &o.site, short, o.polls, flat.len());
-                    rec.case(line.clone(), o.line, orc, nontrivial);
-                }
-                Obs::S(o) => {
-                    let nfaults = script.iter().filter(|i| matches!(i, Item::Fault(k) if !fatal(*k))).count();
-                    rec.bump(&format!("sess.end.{}", o.end));
-                    let orc = oracle(o.end, &o.site, short, o.polls, script_len(&script));
-                    rec.case(line.clone(), o.line, orc, nframes + nfaults >= 1);
-                }
+                Obs::F(o) => record_frame(&mut rec, line, &script, o, &fatal),
+                Obs::S(o) => { if o.end == "hang" { hangs += 1; } record_sess(&mut rec, line, &script, o, &fatal); }
             }
         }
     }
